@@ -617,6 +617,15 @@ func isDotStarLiteralSuffix(re *syntax.Regexp) bool {
 	for re.Op == syntax.OpCapture && len(re.Sub) > 0 {
 		re = re.Sub[0]
 	}
+	// The fast path locates the match on ONE line (it relies on `.` not crossing
+	// '\n'), so `(?s:.)*literal` must take the verified path.
+	first := re.Sub[0]
+	for first.Op == syntax.OpCapture && len(first.Sub) > 0 {
+		first = first.Sub[0]
+	}
+	if len(first.Sub) == 0 || first.Sub[0].Op != syntax.OpAnyCharNotNL {
+		return false
+	}
 	for i, sub := range re.Sub[1:] {
 		if !isExactLiteralTail(sub, i == len(re.Sub)-2) {
 			return false
